@@ -276,7 +276,8 @@ GAPS = [b'\n', b'\n\n', b'\n  ', b' \n', b'\n\t\n']
 def header_shapes(eols=(b'\n', b'\r\n')):
     """0-3 leading comments x comment forms x blank lines / spaces before and between x code on the next
     line or on the same line (only a block comment can have code behind it on its line)"""
-    bodies = [b'x=1\ny=2\n', b'-- trailing comment\nx=1 -- eol comment\n--[[ late ]] y=2\n', b'']
+    bodies = [b'x=1\ny=2\n', b'-- trailing comment\nx=1 -- eol comment\n--[[ late ]] y=2\n', b'',
+              b'x=1\ny=2']                                    # code whose last line has no line end
     for eol in eols:
         for n in range(4):
             pools = [HEADER_COMMENTS] * n if n < 3 else [HEADER_COMMENTS[:3], HEADER_COMMENTS[:4], HEADER_COMMENTS[2:6]]
